@@ -490,6 +490,55 @@ def _consumer_shard(arg):
     return st
 
 
+def numeric_text(ctx):
+    """Every entry point that reads a number out of text or JSON, handed hostile numerals: a value or the library's own
+    exception, under three ambient decimal contexts."""
+    import decimal
+
+    from btclib import amount, bip21
+    from btclib.fee import FeeRate
+    from btclib.tx import TxOut
+
+    signal.signal(signal.SIGALRM, _alarm)
+    st = Stats()
+    nums = ["0", "1", "-1", "21000000", "21000000.00000001", "20999999.99999999", "1e20", "1E20", "1e21", "1e30", "9" * 29, "9" * 400, "1e-9", "1e-30", "-1e20", "1E+400", "1e999999999", "1e-999999999", "0e999999999", "123e99999",
+            "-1E-400", "0.1e1", "nan", "NaN", "-nan", "snan", "inf", "-Infinity", "", " ", "1,5", "0x10", "1_000", "١٢٣", "1e", "e1", ".", "1.", ".1", "+1", "--1", "1e+", "\u0661e2", "1" + "0" * 5000]
+    entry = {
+        "amount.valid_btc_amount": lambda x: amount.valid_btc_amount(x),
+        "amount.sats_from_btc": lambda x: amount.sats_from_btc(x),
+        "amount.valid_sats_amount": lambda x: amount.valid_sats_amount(x),
+        "FeeRate.from_sats_per_vbyte": lambda x: FeeRate.from_sats_per_vbyte(x),
+        "FeeRate.from_btc_per_kvbyte": lambda x: FeeRate.from_btc_per_kvbyte(x),
+        "bip21.parse": lambda x: bip21.Bip21.parse("bitcoin:1BvBMSEYstWetqTFn5Au4m4GFg7xJaNVN2?amount=" + x) if hasattr(bip21, "Bip21") else bip21.parse("bitcoin:1BvBMSEYstWetqTFn5Au4m4GFg7xJaNVN2?amount=" + x),
+        "TxOut.from_dict": lambda x: TxOut.from_dict({"value": x, "script_pub_key": {"script": "51"}} if False else _txout_dict(x)),
+    }
+    for prec in (28, 5, 60):
+        with decimal.localcontext() as c:
+            c.prec = prec
+            for nm, f in entry.items():
+                for x in nums:
+                    st.nontrivial += 1
+                    contract_call(st, "C19/numeric/" + nm, f, x, {"text": x[:30] + ("..." if len(x) > 30 else ""), "prec": prec})
+                    for y in (_as_number(x),):
+                        if y is not None and nm != "bip21.parse":
+                            contract_call(st, "C19/numeric/" + nm, f, y, {"value": repr(y)[:30], "prec": prec})
+    return st
+
+
+def _as_number(x):
+    try:
+        return float(x)
+    except (ValueError, OverflowError):
+        return None
+
+
+def _txout_dict(x):
+    from btclib.tx import TxOut
+    d = TxOut(1, b"\x51").to_dict()
+    d["value"] = x
+    return d
+
+
 def _shape_shard(arg):
     """Every transaction shape (inputs x outputs) x spent script kind x input index x hash-type byte handed to the digest
     functions and the engine: a refusal is the library's own exception, whatever the index/count relation."""
@@ -582,6 +631,7 @@ SUBS = [
     ("json_boundary", json_boundary),
     ("predicates", predicates),
     ("consumers", consumers),
+    ("numeric_text", numeric_text),
     ("consumer_shapes", consumer_shapes),
     ("consumer_opcodes", consumer_opcodes),
 ]
